@@ -257,6 +257,12 @@ def run_case(case):
                         if got != ('val', local):
                             viol.append({'mech': 'proxy/server-side-proxy-call-differs', 'msg': f'list after insert/__setitem__ through a proxy used inside the server: {got}, expected {local}'})
                             return
+                        # ... and a method that raises, called through a proxy inside the server: the hosted method sees the original error
+                        got = call(0, 'b', 'call_kept', [k_idx, 'pop', 10 ** 6])
+                        obs['raising_operations'] += 1
+                        if got[0] != 'exc' or got[1]['type'] != 'IndexError' or got[1]['args'] != ['pop index out of range']:
+                            viol.append({'mech': 'proxy/server-side-proxy-call-differs', 'msg': f'list.pop(10**6) through a proxy used inside the server gave {str(got)[:300]}, a direct call raises IndexError("pop index out of range")'})
+                            return
                         r = call(0, 'b', 'make_own_dict', [], None, 'D')
                         share('D', list(agents))
                         for j in range(6):
